@@ -407,6 +407,59 @@ def result_checked(body, cs, depth=0):
     return False
 
 
+def config_wiring_rule(chk, P, key, doc, body_keys, floor):
+    """Configuration reaches its consumer unchanged: inside the given builder methods, wherever a field of `self` is handed to a
+    like-named parameter of a workspace function, or stored in a like-named field of a workspace struct, it is exactly `self.<name>`
+    (possibly cloned) - not another field, not a transformed value, not a constant."""
+    def f():
+        n, ev = 0, []
+        for bk in body_keys:
+            if not P.has_body(bk):
+                raise mir.AnchorMissing(bk)
+            b = P.body(bk)
+            sty = mir._strip_lifetimes(b.local_ty(1)).lstrip("&").replace("mut ", "").split("<")[0]
+            try:
+                adt = P.adt(sty)
+            except mir.AnchorMissing:
+                raise mir.AnchorMissing("the type of `self` in %s (%s)" % (bk, sty))
+            names = {fl["name"] for v in adt["variants"] for fl in v["fields"]}
+
+            def check(target, op, what, loc):
+                o = b.origin(op, through_calls=("clone", "into", "to_owned", "as_ref", "borrow", "deref", "to_string", "as_str", "copied", "cloned"))
+                r, path = mir.o_field_path(o)
+                if r[0] == "param" and r[1] == 1 and path[:1] == [target] and len(path) == 1:
+                    return None
+                return "%s hands %s to %s `%s` at %s: the configured `%s` does not reach it unchanged" % (bk, mir.o_str(o)[:100], what, target, loc, target)
+            for c in b.calls(normal_only=True):
+                tgt = c.callee.get("resolved") or c.callee.get("path")
+                cb = P.bodies.get(tgt)
+                if cb is None or cb.is_closure or cb.argc != len(c.args):
+                    continue
+                for i, a in enumerate(c.args):
+                    pn = cb.local_name(i + 1)
+                    if pn in names:
+                        n += 1
+                        bad = check(pn, a, "parameter", c.loc)
+                        if bad:
+                            return False, bad, [], c.loc
+                        ev.append("%s: self.%s -> %s(%s)" % (c.loc, pn, cb.key.rsplit("::", 2)[-2] + "::" + cb.key.rsplit("::", 1)[-1], pn))
+            for bb, j, st in b.statements(normal_only=True):
+                rv = st.get("rv") if st["k"] == "assign" else None
+                if not rv or rv["k"] != "agg" or rv.get("ak") != "adt" or not (rv.get("adt") or "").startswith(b.crate + "::") or (rv.get("adt") or "").split("<")[0] == sty:
+                    continue
+                for fn, op in zip(rv.get("fields") or [], rv["ops"]):
+                    if fn in names:
+                        n += 1
+                        bad = check(fn, op, "field", "%s:%s" % (b.file, st.get("line")))
+                        if bad:
+                            return False, bad, [], "%s:%s" % (b.file, st.get("line"))
+                        ev.append("%s:%s: self.%s -> %s.%s" % (b.file, st.get("line"), fn, rv.get("adt").rsplit("::", 1)[-1], fn))
+        if n < floor:
+            raise mir.AnchorMissing("configuration hand-off sites (found %d, expected >= %d)" % (n, floor))
+        return True, "", ev
+    chk.ob(key, doc, f)
+
+
 def results_inspected_rule(chk, P, key, doc, select, allow, floor):
     """Error discipline over a region: every call that returns a Result has its outcome inspected (?, match, is_ok/is_err, returned,
     stored, passed on); `let _ = ...` / a dropped temporary is reported.  `allow` maps (regex on the enclosing function, callee name)
